@@ -46,7 +46,7 @@ Definition pc_sq (p : pcs) : Prop :=
              | None => dec_class cur (cty c)
              end
   | PDecode c e refs path => call_sq c /\ length path <= maxdepth /\ al c = dec_class e (cty c)
-  | PStore c _ _ => call_sq c
+  | PStore c _ _ => call_sq c /\ al c = COk
   | PExEnter r t path => path = []
   | PExPub r t p o => out_sq r t o
   | _ => True
@@ -163,6 +163,7 @@ Proof.
     + constructor; auto. repeat split; simpl; auto.
     + apply log_sq_cons; simpl; auto.
   - destruct (store_or_load (cache s) refs (cty c) v) as [ca v'].
+    destruct Hpc as [Hc _].
     eapply RN; eauto. apply ret_decode_sq; auto.
     intros x E; discriminate.
   - destruct (lookup (cache s) (r, t)).
